@@ -27,6 +27,11 @@ def log(*a):
 
 
 def workdir(name):
+    # runs against a scratch worktree (VERIF_REPO) get their own directories, so that they cannot collide
+    # with a run of the same check against /repo
+    repo = os.environ.get("VERIF_REPO", "/repo")
+    if repo != "/repo":
+        name = "%s-%s" % (name, hashlib.sha1(repo.encode()).hexdigest()[:8])
     d = os.path.join(WORK, name)
     shutil.rmtree(d, ignore_errors=True)
     os.makedirs(d, exist_ok=True)
@@ -127,7 +132,7 @@ def tlc(module, cfg=None, cwd=SPEC, workers=4, simulate=None, depth=None, covera
     failures (parse error, timeout, evaluation error) unless allow_violation and it is an invariant
     violation."""
     name = name or (os.path.splitext(os.path.basename(cfg or module))[0])
-    meta = workdir("tlc-" + name)
+    meta = workdir("tlc-%s-%d" % (name, os.getpid()))
     jopts = "-Xss1g"
     if deque:
         jopts += " -Dtlc2.tool.queue.IStateQueue=StateDeque"
@@ -355,9 +360,7 @@ def validate_trace(module, cfg, records, name, boundaries=None, chunks=1, timeou
     starts, e.g. Reset events) and validated by several single-worker TLC processes in parallel.
     Returns (verdicts, states, transitions)."""
     from concurrent.futures import ThreadPoolExecutor
-    w = os.path.join(WORK, "trace-" + name)
-    shutil.rmtree(w, ignore_errors=True)
-    os.makedirs(w, exist_ok=True)
+    w = workdir("trace-" + name)
     if not records:
         return [], 0, 0
     if boundaries is None or chunks <= 1:
